@@ -10,6 +10,8 @@ STANDING_ASSUMPTIONS = [
     'Rust semantics of ownership/drop; memory model: fence(SeqCst)+Release store order preceding plain stores',
     'default cargo features (alloc, embedded-io); the not(alloc) variants are not verified',
     'termination of device polling loops is not claimed',
+    'machine arithmetic is NOT treated as mathematical: Verus checks every exec + - * / cast for overflow on the machine types and Kani runs with overflow checks on; the only idealisation is `global size_of usize == 8` (64-bit target) where a unit says so',
+    'unsafe code: every unsafe block of the verified functions is either kept (calls of unsafe fns whose # Safety clause is the stub precondition) or replaced by a contract stub (raw pointer / MMIO / allocation); the stubs are the unverified residue and are listed above',
 ]
 
 Q_ASSUME = [
